@@ -61,6 +61,10 @@ RULE = ('expose: every bit depth 1..32 x exposure classes (sorted ramp crossing 
         '{1, 2, 0.5, 0.25, 4} x full well {ADC full scale, +1 LSB, +-half LSB, above, below} x exact pixel values, exact arithmetic; STRUCTURE '
         '(class I): frames 1..8 (thorough 16) x shapes with rows / cols == frames; bin factors 1 / axis length / divisor for axis lengths 1..64 '
         '(+ 500, 512, 997, 1000), 1-D, all 2-D pairs, sampled 3-D; Bayer shapes 2x2, 2xN, Nx2, >= 500 per axis; '
+        'RARELY USED ARGUMENTS (class M): wb_prescale safe true / false / 1 / np.True_ x saturation scalar / per-channel (float, int, numpy '
+        'scalar, list, tuple, float64 / float32 / int ndarray; four different levels) x both layouts x limiting overshoot in r / g1 / g2 / b / '
+        'none / a plane exactly at its level x gains unit / limiting-plane-unit / general x shapes 2x2 .. 16x10 x four memory layouts, '
+        'the same saturation object re-used after a call with the other layout; '
         'non-trivial = array has >= 2 samples; distinct = distinct descriptor')
 ASSUMPTIONS = ['noise-free reference: floor(clip(min(s*t*prnu + dark*t*dcnu*prnu + bias, fwc)/gain, 0, 2^bits-1)); cases with a prnu '
                'map use zero dark current so that it does not matter whether prnu also scales the dark signal',
@@ -71,7 +75,12 @@ ASSUMPTIONS = ['noise-free reference: floor(clip(min(s*t*prnu + dark*t*dcnu*prnu
                'not sums modulo the container',
                'the backend shim swap only replaces random.poisson (returns its mean) and random.normal (returns loc)',
                'aerial images are 2-D and non-negative; dcnu/prnu maps have the image shape (prnu also flat 1-D as the code accepts)',
-               'white balance: only "each colour is scaled by one constant, safe mode applies one common limiter" is demanded',
+               'white balance: each colour is scaled by one constant; safe wb_prescale divides the four gains by ONE limiter = max(1, largest '
+               'overshoot max(plane_c) / level_c of a colour plane over its own saturation level; levels in r, g1, g2, b order), as established '
+               'on the current tree (the docstring lists neither safe nor saturation); whether the overshoot is taken on the raw or on the '
+               'gain-scaled planes is left open: either limiter is accepted (counted as an event when they differ); saturation that is not '
+               'one or four positive finite levels, non-positive gains and non-finite samples are excluded and counted; wb_postscale: only '
+               '"one constant per plane, one common limiter" is demanded',
                'unit invariance: DN depends only on (signal x time + dark x time + bias) / gain and fwc / gain, so rescaling the electron unit '
                '(signal, dark, bias, fwc, gain together) or the time unit (time up, rates down) must not change it; compared with the unscaled twin only '
                'where the reference says the real-valued DN is not within 1e-9 relative of an integer',
@@ -87,7 +96,8 @@ REQUIRED = ['expose.contract', 'expose.noise-free-model', 'expose.monotonic', 'b
             'bayer.roundtrip', 'bayer.malvar', 'bayer.deinterlace', 'wb.prescale', 'wb.postscale',
             'expose.history', 'expose.repeat', 'expose.saturated-real-rng', 'expose->bindown', 'bindown.integer-containers',
             'forms.expose', 'forms.bindown', 'forms.tile', 'forms.bayer',
-            'expose.scale-law', 'expose.prnu-wide', 'expose.special-values', 'expose.frames', 'bin.structural', 'bayer.scale-law']
+            'expose.scale-law', 'expose.prnu-wide', 'expose.special-values', 'expose.frames', 'bin.structural', 'bayer.scale-law',
+            'wb.prescale-safe-model']
 
 CTX = None
 ADC_KEY = 'C16/expose/adc-ceiling-2^bits'
@@ -512,6 +522,44 @@ def post_wb_prescale(before, args, kwargs, result):
         what = 'safe wb_prescale does not limit the four gains by one common factor'
     if not ok:
         CTX.violation(f'C16/bayer/wb_prescale/{cfa}/{"safe" if safe else "plain"}/gain-at-wrong-site', what, desc, gains_applied=ks, requested=want)
+        return
+    if safe:
+        _judge_safe_limiter(before, cfa, want, ks, a.get('saturation'), desc)
+
+
+def _judge_safe_limiter(before, cfa, want, ks, saturation, desc):
+    """Reference model of the safe mode (hardening pass 4, class M): the one common limiter is the largest overshoot of any colour
+    plane over ITS OWN saturation level (levels in r, g1, g2, b order like the gains and like decomposite_bayer's planes), and 1
+    when no plane overshoots.  The docstring does not say whether the overshoot is measured on the raw planes (what the tree
+    does) or on the gain-scaled planes: either reading is accepted; they coincide for unit gains and whenever the limiting
+    plane has unit gain and no other plane overshoots more after its gain."""
+    names = ('r', 'g1', 'g2', 'b')
+    form = 'per-channel' if hasattr(saturation, '__iter__') else 'scalar'
+    try:
+        sats = [float(v) for v in saturation] if form == 'per-channel' else [float(saturation)] * 4
+        gains = [float(want[n]) for n in names]
+    except Exception:  # noqa  (a consumed generator, non-numeric levels)
+        CTX.skip('safe wb_prescale: saturation levels cannot be read back by the monitor')
+        return
+    if len(sats) != 4 or not all(np.isfinite(s) and s > 0 for s in sats):
+        CTX.skip('safe wb_prescale: saturation is not four positive finite levels (left open by the docstring)')
+        return
+    if not all(np.isfinite(g) and g > 0 for g in gains) or not np.all(np.isfinite(before)):
+        CTX.skip('safe wb_prescale: non-positive / non-finite gains or samples (limiter left open by the docstring)')
+        return
+    over = [float(ref.site(before, cfa, n).max()) / s for n, s in zip(names, sats)]
+    pre = max([1.0] + over)
+    post = max([1.0] + [o * g for o, g in zip(over, gains)])
+    applied = np.array([want[n] / ks[n] for n in names], dtype=float)
+    CTX.observe('wb.prescale-safe-model')
+    if abs(pre - post) > 1e-12 * pre:
+        CTX.event('safe wb_prescale: overshoot before / after the gains differ (either reading accepted)')
+    ok = np.allclose(applied, pre, rtol=1e-12, atol=0) or np.allclose(applied, post, rtol=1e-12, atol=0)
+    if not ok:
+        CTX.violation(f'C16/bayer/wb_prescale/{cfa}/safe/arg:saturation={form}/limiter-not-largest-own-overshoot',
+                      'safe wb_prescale does not divide the gains by the largest overshoot of a colour plane over its own saturation level '
+                      '(1 when no plane overshoots)', desc, limiter_applied=float(np.median(applied)), limiter_raw_planes=pre,
+                      limiter_scaled_planes=post, overshoot_by_plane=dict(zip(names, over)))
 
 
 def pre_wb_postscale(args, kwargs):
@@ -2141,6 +2189,114 @@ def bayer_magnitudes(ctx):
     ctx.note('bayer_magnitudes', {'scales': scales, 'shapes': len(shapes)})
 
 
+# ------------------------------------------------------------------------------------------ rarely used arguments (hardening pass 4, class M)
+# wb_prescale(safe=, saturation=): the docstring lists neither argument; established on /repo@66c5405: safe falsy -> saturation is
+# ignored; safe truthy -> saturation must not be None (ValueError); an object with __iter__ is read as four levels in r, g1, g2, b order
+# (list / tuple / float or int ndarray; a 0-d array raises; other lengths are cut by zip: out of domain), anything else is one level
+# common to the four planes; the four gains are divided by max(1, max_c max(plane_c) / level_c), plane_c the RAW samples of colour c
+# at its native sites for the given cfa (lower case only in safe mode).
+WB_SAT_FORMS = {
+    'scalar:float': lambda s: float(s[0]), 'scalar:np.float64': lambda s: np.float64(s[0]), 'scalar:int': lambda s: int(s[0]),
+    'per-channel:list': lambda s: [float(v) for v in s], 'per-channel:tuple': lambda s: tuple(float(v) for v in s),
+    'per-channel:ndarray': lambda s: np.array(s, dtype=float), 'per-channel:float32': lambda s: np.array(s, dtype=np.float32),
+    'per-channel:int-ndarray': lambda s: np.array(s, dtype=np.int64),
+}
+WB_LIMITING = ['r', 'g1', 'g2', 'b', 'none', 'at-level']
+WB_GAIN_CLASSES = ['unit', 'limiting-plane-unit', 'general']
+WB_SAFE_FORMS = {'True': True, 'False': False, '1': 1, 'np.True_': np.True_}
+
+
+def wb_safe_workload(ctx):
+    """wb_prescale with safe true / false x scalar / per-channel saturation (every accepted container) x both layouts x the limiting
+    overshoot in each of the four planes (or in none, or a plane exactly at its level) x gain classes; the contract's reference
+    model (_judge_safe_limiter) decides.  Every plane has its own level, its own overshoot and its own gain, other planes may
+    overshoot less than the limiting one, so reading a level against another plane changes the limiter."""
+    from prysm import bayer
+    names = ('r', 'g1', 'g2', 'b')
+    shapes = [(2, 2), (2, 6), (4, 2), (6, 8), (16, 10)]
+    forms = list(WB_SAT_FORMS)
+    k = -1
+    for rep in range(ctx.pick(1, 60)):
+        for cfa, lim, gcls, shape in itertools.product(('rggb', 'bggr'), WB_LIMITING, WB_GAIN_CLASSES, shapes):
+            k += 1
+            if not ctx.mine(k):
+                continue
+            rng = np.random.default_rng([ctx.seed, 16950, k])
+            form = forms[(k + k // len(forms)) % len(forms)]
+            per_channel = form.startswith('per-channel')
+            # levels: integers >= 50 so that every container holds them exactly; all different when per channel
+            base = float(rng.integers(200, 4000))
+            if per_channel:
+                mult = rng.permutation([1.0, 0.55, 1.7, 2.9]) * rng.uniform(0.9, 1.1, 4)
+                sats = [float(np.rint(base * v)) for v in mult]
+            else:
+                sats = [float(np.rint(base))] * 4
+            # overshoot of each plane over its own level
+            if lim in names:
+                top = float(rng.uniform(1.2, 4.0))
+                over = {n: top if n == lim else float(rng.uniform(0.3, 0.97) * top) for n in names}
+            elif lim == 'none':
+                over = {n: float(rng.uniform(0.2, 0.99)) for n in names}
+            else:
+                at = names[int(rng.integers(4))]
+                over = {n: 1.0 if n == at else float(rng.uniform(0.2, 0.99)) for n in names}
+            if gcls == 'unit':
+                g = [1.0] * 4
+            elif gcls == 'general':
+                g = [float(v) for v in rng.uniform(0.3, 3.0, 4)]
+            else:
+                # the limiting plane keeps gain 1, no other plane overshoots more after its gain: both readings of the docstring agree
+                cap = max(1.0, max(over.values()))
+                g = [1.0 if (n == lim or over[n] == cap) else float(rng.uniform(0.3, min(3.0, 0.98 * cap / over[n]))) for n in names]
+            planes = []
+            for n, s in zip(names, sats):
+                p = over[n] * s * rng.uniform(0.05, 0.999, (shape[0] // 2, shape[1] // 2))
+                if p.size > 2 and k % 3 == 0:
+                    p.flat[int(rng.integers(p.size))] *= -1.0           # bias-subtracted raw data may be negative
+                p.flat[int(rng.integers(p.size))] = over[n] * s         # the plane's maximum, exactly
+                planes.append(p)
+            m = np.empty(shape)
+            for n, p in zip(names, planes):
+                r0, c0 = ref.SITES[cfa][n]
+                m[r0::2, c0::2] = p
+            layout = LAYOUTS[(k // 7) % 4]
+            sform = list(WB_SAFE_FORMS)[(k // 5) % 4] if k % 5 == 0 else 'True'
+            desc = {'wl': 'wb-safe', 'shape': list(shape), 'cfa': cfa, 'limiting': lim, 'gains': gcls, 'saturation': form, 'safe': sform,
+                    'layout': layout, 'k': k, 'class': f'wb-safe:{cfa}:{lim}:{gcls}:{form.split(":")[0]}:safe={sform}'}
+            ctx.case(desc)
+            with ctx.guard(f'C16/bayer/wb_prescale/{cfa}/arg:safe={sform}', desc):
+                sarg = WB_SAT_FORMS[form](sats)
+                keep = np.array(sarg, dtype=float, copy=True)
+                mm = as_layout(m.copy(), layout)
+                if k % 4 == 3:
+                    # history: the other layout first with the same saturation object, and a plain call in between
+                    other = 'bggr' if cfa == 'rggb' else 'rggb'
+                    bayer.wb_prescale(as_layout(m.copy(), layout), *g, cfa=other, safe=True, saturation=sarg)
+                    bayer.wb_prescale(m.copy(), *g, cfa=cfa)
+                bayer.wb_prescale(mm, *g, cfa=cfa, safe=WB_SAFE_FORMS[sform], saturation=sarg)
+                ctx.require('wb.prescale-safe-model', np.array_equal(np.array(sarg, dtype=float), keep),
+                            f'C16/bayer/wb_prescale/{cfa}/arg:saturation={form.split(":")[0]}/levels-overwritten',
+                            'wb_prescale changed the saturation levels it was given', desc)
+                if not WB_SAFE_FORMS[sform]:
+                    continue
+                if gcls != 'general':
+                    # direct statement of what safe mode is for, where both readings agree: every native sample is its raw value
+                    # times gain / limiter, no plane ends above its own level, and the limiting plane ends exactly at it
+                    cap = max(1.0, max(over.values()))
+                    want = np.empty(shape)
+                    for n, p, gg in zip(names, planes, g):
+                        r0, c0 = ref.SITES[cfa][n]
+                        want[r0::2, c0::2] = p * (gg / cap)
+                    ctx.close('wb.prescale-safe-model', np.asarray(mm), want, f'C16/bayer/wb_prescale/{cfa}/safe/arg:saturation={form.split(":")[0]}/'
+                              'limiter-not-largest-own-overshoot', 'safe wb_prescale: a native sample is not raw x gain / (largest overshoot of a plane '
+                              'over its own saturation level)', desc, rtol=1e-12)
+    ctx.note('wb_safe', {'saturation_forms': forms, 'limiting': WB_LIMITING, 'gain_classes': WB_GAIN_CLASSES, 'safe_forms': list(WB_SAFE_FORMS)})
+
+
+def hardening4_workload(ctx):
+    wb_safe_workload(ctx)
+
+
 def hardening3_workload(ctx):
     expose_magnitudes(ctx)
     expose_specials(ctx)
@@ -2164,6 +2320,7 @@ def run(ctx):
         bayer_workload(ctx)
         forms_workload(ctx)
         hardening3_workload(ctx)
+        hardening4_workload(ctx)
     finally:
         mathops.np._srcmodule = real
         config.precision = old
